@@ -16,7 +16,8 @@ EXPLANATION = (
     "tokenize.Comment denote the same language (two inclusions by DFA product, modulo \\r which rope normalises away "
     "before scanning).  R14.4: every bracket counter of the text scanners classifies all of ( [ { as opening and all "
     "of ) ] } as closing (sibling agreement with the tokenizer's paired delimiters).  R14.5: where a scanner captures the "
-    "run of backslashes before a token, 'escaped' is decided by the parity of the run's length.  Line-index inversion, the "
+    "run of backslashes before a token, 'escaped' is decided by the parity of the run's length.  R14.6: the line tables "
+    "and line splitters of the text scanners delimit lines by explicit '\\n', never by str.splitlines().  Line-index inversion, the "
     "logical-line algorithm itself and the word/primary scanners are arithmetic over strings and are not decided."
 )
 ASSUMPTIONS = ["tokenize's own Comment pattern and _all_string_prefixes() are the oracle for the token language"]
@@ -188,6 +189,9 @@ def check(ctx, res) -> None:
                     opens=sorted(opens), closes=sorted(closes))
     res.floor("R14.4", "bracket-counting scanners", n4, 3)
 
+    # ---- R14.6 line tables split at '\\n' only
+    line_table_rule(ctx, res, "R14.6")
+
     # ---- R14.5 escape parity: a scanner that captures the run of backslashes before a token may treat the token as
     # escaped only when the run has ODD length (an even run is escaped backslashes followed by a live token)
     from ..cfg import CFG
@@ -228,6 +232,29 @@ def check(ctx, res) -> None:
                         "a quote/bracket after an even run (escaped backslashes, e.g. 'C:\\\\') is ignored, the scanner stays inside the string and all following "
                         "lines are merged into one logical line")
     res.floor("R14.5", "escape decisions on a captured backslash run", n5, 1)
+
+
+def line_table_rule(ctx, res, rule: str) -> None:
+    """R14.6: rope's line tables and line splitters break text at '\\n' only (rope normalises '\\r' when reading).
+    str.splitlines() also breaks at \\x0b \\x0c \\x1c-\\x1e \\x85 \\u2028 \\u2029, none of which the tokenizer treats as a
+    line end (a form-feed page break is ordinary whitespace): every line after such a character would be shifted."""
+    idx = ctx.idx
+    n = 0
+    for modname in ("rope.base.codeanalyze", "rope.base.simplify", "rope.base.worder"):
+        for f in sorted(idx.functions.values(), key=lambda f: f.qualname):
+            if f.unit.modname != modname:
+                continue
+            uses = [c for c in calls_in(f.node) if isinstance(c.func, ast.Attribute) and c.func.attr == "splitlines"]
+            splits = [c for c in calls_in(f.node) if isinstance(c.func, ast.Attribute) and c.func.attr in ("split", "index", "find", "rindex", "rfind", "count")
+                      and c.args and const_str(c.args[0]) == "\n"]
+            if not uses and not splits:
+                continue
+            n += 1
+            res.add(rule, f.qualname.split(".", 2)[-1], not uses, f.where,
+                    "lines are delimited by explicit '\\n' only" if not uses else
+                    f"{f.qualname.split('.', 2)[-1]} uses str.splitlines(), which also breaks at form feed / \\x0b / \\x1c-\\x1e / \\x85 / \\u2028 / \\u2029: "
+                    "after such a character every offset<->line conversion and logical line is shifted against the tokenizer's rows")
+    res.floor(rule, "line-delimiting functions in the text scanners", n, 3)
 
 
 def _top_groups(pat: str) -> List[str]:
